@@ -70,6 +70,12 @@ func (r *RecTB) classify(kind string, s string) F {
 		f["class"] = "draw"
 		f["label"] = m[1]
 		f["val"] = Digest(m[2])
+		f["auto"] = -1
+		if strings.HasPrefix(m[1], "#") {
+			if n, err := strconv.Atoi(m[1][1:]); err == nil {
+				f["auto"] = n
+			}
+		}
 	case reIgnore.MatchString(s):
 		f["class"] = "ffignore"
 		f["names"] = s
